@@ -1,7 +1,7 @@
 """C11 Checksummed text encodings: decode-site discipline (Base58Check), Bech32 decoder guards, version checks, encoders."""
 import ast
 
-from ..core import Property, unparse, norm, walk_no_nested, calls_in, callee_name, func_params
+from ..core import Property, AnalysisError, unparse, norm, walk_no_nested, calls_in, callee_name, func_params
 from ..sym import Interp, S, term, show, subterms, flatten_cat, State
 from ..layout import LAYOUT_HOOKS, normalize, plus_to_cat
 from .. import intv, mut
@@ -522,6 +522,7 @@ FOLDING = ('lower', 'upper', 'casefold', 'swapcase', 'title', 'capitalize', 'str
     mut.insert_before('keys', 'Address.parse', 'addr_dict = deserialize_address', 'address = address.lower()', 'Address.parse lower-cases the address before decoding'),
     mut.replace_expr('transactions', 'Output.__init__', 'deserialize_address(self._address, network=network.name)', 'deserialize_address(self._address.strip(), network=network.name)', 'Output strips the address before decoding') if False else
     mut.insert_before('keys', 'deserialize_address', "if encoding is None or encoding == 'base58'", 'address = address.strip()', 'deserialize_address strips the string before validation'),
+    mut.insert_before('encoding', 'change_base', 'if not min_length:', 'if base_from == 58:\n    inp = inp.rstrip()', 'the Base58 decoder strips trailing white space', nth=0),
 ])
 def no_prenormalise(ctx):
     """No caller (and no decoder before its own validation) case-folds or strips the text handed to an address decoder:
@@ -554,7 +555,8 @@ def no_prenormalise(ctx):
     ctx.saw('%d decoder call sites inspected' % n, n)
     ctx.floor(n, 8, 'decoder call sites')
     # the decoders themselves: the parameter must not be re-bound through a folding call before the first raise-guard
-    for q, param in (('keys:deserialize_address', 'address'), ('encoding:addr_base58_to_pubkeyhash', 'address')):
+    # ... and the Base58 decoder every Base58Check consumer goes through (change_base(x, 58, ...)): its working copy of the text
+    for q, param in (('keys:deserialize_address', 'address'), ('encoding:addr_base58_to_pubkeyhash', 'address'), ('encoding:change_base', 'inp'), ('encoding:change_base', 'chars')):
         fn = repo.func(q)
         for node in walk_no_nested(fn):
             if isinstance(node, ast.Assign) and any(isinstance(t, ast.Name) and t.id == param for t in node.targets):
@@ -681,3 +683,65 @@ def convert_keeps_version(ctx):
             ctx.require(got == witver, q, 'an address of witness version %d (encoding=%r) is encoded again with witness version %s' % (witver, enc, got), fn,
                         "addr_convert('bc1p5cyxnuxmeuwuvkwfem96lqzszd02n6xdcjrs20cac6yqjjwudpxqkedrcr', 'bc') returns the version-0 address bc1q5cyx...: Address(..., network_overrides=...) silently turns a taproot address into a P2WSH one")
     ctx.floor(n, 6, 'conversion scenarios')
+
+
+@PROP.obligation('C11.xprv-marker-byte', canaries=[
+    mut.Canary('the byte in front of the secret of an extended private key is skipped unseen', 'keys', lambda tree: _skip_marker(tree)),
+])
+def xprv_marker_byte(ctx):
+    """An extended private key is version . depth . fingerprint . child . chain . 00 . secret . checksum: the byte in front of the secret
+    is 0x00 in the one canonical encoding (BIP32 test vector 5 lists "invalid prvkey prefix 04 / 01" as strings that must be refused).
+    The extended-key branch of HDKey.__init__ is evaluated on a payload with a PRIVATE version and the marker byte 0x01 / 0x04 in front
+    of 32 key bytes: it does not continue as a private key made of those 32 bytes (it raises, or - as on the reference tree - hands the
+    33 bytes on as a public key, which Key() then refuses). Accepting it maps a non-canonical string to the payload of the canonical one."""
+    from .. import seg
+    from ..layout import canon_layout
+    SELF = ('var', 'self')
+    fn = ctx.repo.func('keys:HDKey.__init__')
+    blks = [n for n in ast.walk(fn) if isinstance(n, ast.If) and "'hdkey_private'" in unparse(n.test) and "'hdkey_public'" in unparse(n.test)]
+    if len(blks) != 1:
+        ctx.undecided('HDKey.__init__: extended key branch not found')
+    B = ('call', 'change_base', (('var', 'wif'), 58, 256), ())
+    n = 0
+    for marker in (b'\x01', b'\x04', b'\x00'):
+        lay = [b'\x04\x88\xad\xe4', ('depth', 1), ('parent_fingerprint', 4), ('child_index', 4), ('chain', 32), marker, ('secret', 32), ('checksum', 4)]
+        it = Interp(ctx.repo, 'keys', hooks=dict(LAYOUT_HOOKS), self_cls='keys:HDKey')
+        st = State(env={'self': S(SELF), 'import_key': S(('var', 'wif'), 'str'), 'is_private': True,
+                        'kf': {'format': 'hdkey_private', 'is_private': True, 'networks': ['bitcoin'], 'script_types': [], 'witness_types': ['segwit'], 'multisig': [False]}})
+        it.frames.append([])
+        try:
+            end = it.exec_block(blks[0].body, st)
+        except AnalysisError as e:
+            ctx.undecided('HDKey.__init__: extended key branch not evaluable: %s' % str(e)[:100])
+        it.frames.pop()
+        if end is None:
+            ctx.undecided('HDKey.__init__: extended key branch always raises')
+        env = {B: seg.seg(*lay)}
+        try:
+            key = end.env.get('key')
+            key = seg.seg_eval(canon_layout(term(key)) if isinstance(key, S) else key, env)
+            ip = end.env.get('is_private')
+            ip = seg.seg_eval(term(ip), env) if isinstance(ip, S) else ip
+        except seg.SegUnknown as e:
+            ctx.undecided('HDKey.__init__: outcome for marker byte %s not evaluable: %s' % (marker.hex(), e))
+        n += 1
+        as_private_secret = (ip is True or ip == 1) and key == seg.seg(('secret', 32))
+        ctx.saw('private version, marker byte %s: is_private=%s, key=%s' % (marker.hex(), ip, seg.fmt(key) if seg.is_seg(key) else key))
+        if marker == b'\x00':
+            ctx.require(as_private_secret, 'keys:HDKey.__init__', 'the canonical layout (marker 00) is read as is_private=%s, key=%s' % (ip, seg.fmt(key) if seg.is_seg(key) else key), blks[0])
+        else:
+            ctx.require(not as_private_secret, 'keys:HDKey.__init__', 'an extended private key whose marker byte is %s instead of 00 is imported as the private key of its last 32 bytes' % marker.hex(), blks[0],
+                        "HDKey('xprv...') accepts BIP32 test vector 5 'invalid prvkey prefix 04': a non-canonical string is mapped to the payload of another string and wif_private() re-encodes it differently")
+    ctx.floor(n, 3, 'marker bytes')
+
+
+def _skip_marker(tree):
+    for cls in tree.body:
+        if isinstance(cls, ast.ClassDef) and cls.name == 'HDKey':
+            for f in cls.body:
+                if isinstance(f, ast.FunctionDef) and f.name == '__init__':
+                    for i_ in ast.walk(f):
+                        if isinstance(i_, ast.If) and norm(i_.test) == 'ord(bkey[45:46])':
+                            i_.test = ast.parse("not kf['is_private']", mode='eval').body
+                            return True
+    return False
